@@ -12,7 +12,10 @@ for d in sys.argv[1:]:
     if a.returncode != 0:
         print(name, "PATCH DOES NOT APPLY", a.stderr[:200]); continue
     try:
-        out = subprocess.run(["bin/dscheck", "-property", "all", "-tier", "quick", "-verif", tmp], capture_output=True, text=True).stdout
+        try:
+            out = subprocess.run(["bin/dscheck", "-property", "all", "-tier", "quick", "-verif", tmp], capture_output=True, text=True, timeout=600).stdout
+        except subprocess.TimeoutExpired:
+            out = "UNDECIDED: ALL.TIMEOUT site=dscheck at : no answer within 600 s\n"
     finally:
         subprocess.run(["git", "-C", "/repo", "checkout", "--", "."])
         subprocess.run(["git", "-C", "/repo", "clean", "-fdq", "pkg"])
